@@ -207,6 +207,12 @@ func genC06(tier, out string, sum *Summary) {
 		}
 		items = append(items, item{e, unparse(e), jsonDoc(aliasDocs[i%len(aliasDocs)])})
 	}
+	for i, t := range rebuildFamily() {
+		if tier != "thorough" && i%2 != 0 || enumText(t) {
+			continue
+		}
+		items = append(items, item{nil, t, jsonDoc(rebuildDocs[i%len(rebuildDocs)])})
+	}
 	// a compiled expression entered again while it is being evaluated (a value in the data that serialises itself
 	// by querying with the same expression): the outer evaluation still sees its own document
 	for _, text := range []string{"[to_string(a), $.b]", "[$.b, to_string(a), $.b, b]", "let $v = b in [to_string(a), $v, $.b]", "{p: to_string(a), q: $.b}.[p, q]", "[a, b][?to_string(@) != $.b] | [length(@), $.b]", "map(&[to_string(@), $.b], [a])", "to_string(a) | [@, $.b]"[:0] + "[to_string(a)][*].[@, $.b]"} {
@@ -356,6 +362,19 @@ func genC07(tier, out string, sum *Summary) {
 	for _, t := range opTexts {
 		isOp[t] = true
 	}
+	// constructs that walk or rebuild arrays, all goroutines on ONE shared document with nulls inside nested arrays
+	rebTexts := []string{}
+	for i, t := range rebuildFamily() {
+		if (tier == "thorough" || i%5 == 0) && !enumText(t) {
+			rebTexts = append(rebTexts, t)
+		}
+	}
+	fixed = append(fixed, rebTexts...)
+	rebShared := jsonDoc(rebuildDocs[0])
+	isReb := map[string]bool{}
+	for _, t := range rebTexts {
+		isReb[t] = true
+	}
 	// comparisons of large containers of ONE shared document by all goroutines at once: whatever bookkeeping a
 	// comparison keeps while it runs belongs to the call
 	bigTexts := []string{"l == r", "l != r", "w == w2", "contains([r, `1`], l)", "l == l && r == r", "[l] == [r]", "l[?@ == `-1`]", "{p: l} == {p: r}"}
@@ -415,6 +434,8 @@ func genC07(tier, out string, sum *Summary) {
 				docs[w] = bigShared
 			} else if isOp[text] {
 				docs[w] = opShared // one document for all goroutines, its arrays with spare capacity
+			} else if isReb[text] {
+				docs[w] = rebShared
 			} else if ssDocsW != nil {
 				docs[w] = ssDocsW[w]
 			} else if i%2 == 1 || i < len(fixed) {
